@@ -672,9 +672,12 @@ class PowerLawEnergyFluxProfile(
             integral = self._E0 * np.log(E2/E1)
             return integral
 
+        # The difference E2^(1-gamma) - E1^(1-gamma) is calculated as
+        # E1^(1-gamma) * expm1((1-gamma)*log(E2/E1)) to avoid the loss of
+        # precision through cancellation for gamma close to 1.
         integral = (
-            np.power(self._E0, gamma) / (1-gamma) *
-            (np.power(E2, 1-gamma) - np.power(E1, 1-gamma))
+            np.power(self._E0, gamma) * np.power(E1, 1-gamma) *
+            np.expm1((1-gamma) * np.log(E2/E1)) / (1-gamma)
         )
 
         return integral
